@@ -279,8 +279,27 @@ fn process_inner(case: &Value) -> Vec<Value> {
         }
     }
     let in_ok = in_ast.is_ok();
+    // format_code is a function of (text, configuration): after every other configuration of the sweep has been
+    // through the same thread, the first one must still give what it gave the first time (no state kept between calls)
+    let again_same = if groups.is_empty() {
+        None
+    } else {
+        // the first and the middle configuration, each right after a different one
+        let picks = [0, groups.len() / 2, groups.len() - 1, 0];
+        Some(picks.iter().all(|&i| {
+            let g = &groups[i];
+            let (o2, _) = run_format(&src, g.1, range, false);
+            outcome_key(&o2) == outcome_key(&g.2)
+        }))
+    };
+    let first_format = evs.len();
     for (vi, (vj, vcfg, o, ms, labels, _key)) in groups.into_iter().enumerate() {
         observe_variant(case, &id, vi, &vj, vcfg, range, &src, small, in_ok, in_tree.as_ref(), o, ms, labels, &mut evs);
+    }
+    if let (Some(same), Some(ev)) = (again_same, evs.get_mut(first_format)) {
+        if ev["ev"] == "Format" {
+            ev["again_same"] = json!(same);
+        }
     }
     evs
 }
